@@ -9,20 +9,20 @@ TRUST = ('TLC 1.8 / SANY / CommunityModules; the harness (lexical parsing of res
 
 CHECKS = {
  'C01': dict(cat='model_checking', sec='6 C01',
-   text='TLC constructs every instance file and option set of bounded families (MC_Solver.tla), proves on them that the IP model projects exactly onto the valid matchings (all 0/1 points) and that every reported result is valid; every exported behaviour is replayed: the admissible set of the REAL LpProblem is enumerated exactly at each solve and every optimal point the back end may return is forced through the reporting code and compared with the valid matchings of the specification. Exhaustive within the small families, sampled (tlc -simulate) in the wide ones.',
-   tech='TLC model checking of MC_Solver families + exact enumeration of the real integer program + adversarial stand-in solver replay'),
+   text='TLC constructs every instance file and option set of bounded families (MC_Solver.tla), proves on them that the IP model projects exactly onto the valid matchings (all 0/1 points) and that every reported result is valid; every exported behaviour is replayed: the admissible set of the REAL LpProblem is enumerated exactly at each solve and every optimal point the back end may return is forced through the reporting code and compared with the valid matchings of the specification. Exhaustive within the small families, sampled (tlc -simulate) in the wide ones. Code->spec: real-CBC runs on the shipped Evaluations instances and generator-written instances are traces validated by Trace_Pipe.tla.',
+   tech='TLC model checking of MC_Solver families + exact enumeration of the real integer program + adversarial stand-in solver replay + trace validation of real-CBC runs (Trace_Pipe.tla)'),
  'C02': dict(cat='model_checking', sec='6 C02',
    text='Same machinery; status Optimal iff the specification admits a matching, emptiness of the real problem at every solve vs the specification, no exception from Solver/solve/getters, for criteria lists of length 0-9 built by TLC with all argument variants; objective-variable bounds and names are also model-checked (ObjBoundsAdmit, NamesUnique).',
-   tech='TLC model checking + replay with exact IP enumeration at every solve'),
+   tech='TLC model checking + replay with exact IP enumeration at every solve + trace validation of real-CBC runs (Trace_Pipe.tla)'),
  'C03': dict(cat='model_checking', sec='6 C03',
    text='For each of the nine criteria with every admissible argument variant TLC computes the declarative optimum over all admissible matchings; the optimum of the real problem at every solve, and every returnable final point, must agree.',
-   tech='TLC model checking + replay with exact IP enumeration'),
+   tech='TLC model checking + replay with exact IP enumeration + trace validation of real-CBC runs (Trace_Pipe.tla)'),
  'C04': dict(cat='model_checking', sec='6 C04',
    text='LexOptimal/FrozenHolds model-checked (freeze pipeline = declarative lexicographic optimum); ordered lists of 2-9 criteria with permuted flags and gaps replayed: optimum at every solve and every returnable final point must be the specified lexicographic optimum.',
-   tech='TLC model checking + replay with exact IP enumeration'),
+   tech='TLC model checking + replay with exact IP enumeration + trace validation of real-CBC runs (Trace_Pipe.tla)'),
  'C05': dict(cat='model_checking', sec='6 C05',
    text='IP-level model of the alpha/beta/gamma constraints proved equal to {valid and stable} on all 0/1 points (TLC); admissible set of the real stability IP must EQUAL the stable matchings of the specification on every two-sided family instance (set equality), incl. ties, shared lecturers, zero capacities.',
-   tech='TLC model checking (StabIP) + exact projection of the real IP compared by set equality'),
+   tech='TLC model checking (StabIP) + exact projection of the real IP compared by set equality + trace validation of real-CBC -stab runs'),
  'C06': dict(cat='model_checking', sec='6 C06',
    text='Checker loop modelled in TLA+ and proved equal to the SPA-STL definition on every upper-quota-respecting assignment (TLC); real Model.check_stability called on every such assignment of every exported instance.',
    tech='TLC model checking (CheckerEqDef) + exhaustive replay of assignments into Model.check_stability'),
@@ -30,8 +30,8 @@ CHECKS = {
    text='Brute-force fold modelled in product order with its accumulators and proved equal to the declarative optimum of all nine printed statistics (TLC); real -bf runs compared line by line.',
    tech='TLC model checking (BFEqDef) + replay of -bf runs'),
  'C08': dict(cat='model_checking', sec='6 C08',
-   text='MPGen.tla: the generator as a state machine; with tiny counts TLC runs it through EVERY random draw and proves GenWellFormed/GenRoundTrip; the real Generator is run on every legal argument vector of the TLC-enumerated families x seeds and each written file is a trace validated by Trace_Gen.tla (specification reader on the bytes, then the guards of the generator actions clause by clause: counts, numbering, list lengths/distinct/in range, Spread of quotas/targets/projects per lecturer, tie probability 0/1 laws, second-side lists iff two-sided, parameter block); "every length can occur" decided statistically on >= 200 lists.',
-   tech='TLC model checking of MPGen over all draws + trace validation (Trace_Gen.tla) of real generator output'),
+   text='MPGen.tla: the generator as a state machine; with tiny counts TLC runs it through EVERY random draw and proves GenWellFormed/GenRoundTrip; the real Generator is run on every legal argument vector of the TLC-enumerated families x seeds and each written file is a trace validated by Trace_Gen.tla (specification reader on the bytes, then the guards of the generator actions clause by clause: counts, numbering, list lengths/distinct/in range, Spread of quotas/targets/projects per lecturer, tie probability 0/1 laws, second-side lists iff two-sided, parameter block); "every length can occur" decided statistically on >= 200 lists. The spreading laws (sum, differ by at most one, larger shares first, monotone in the total) are additionally PROVED for unbounded n and totals with TLAPS (spec/unbounded/SpreadProofs.tla, 113 obligations) and create_quotas / create_project_lecturers are compared with Spread / SpreadAssign on every (n, total) of MC_Spread.tla.',
+   tech='TLC model checking of MPGen over all draws + trace validation (Trace_Gen.tla) of real generator output + TLAPS proofs of the spreading laws'),
  'C09': dict(cat='model_checking', sec='6 C09',
    text='GenRoundTrip model-checked; real Generator output (all four types, TLC-enumerated legal vectors, seeds) is fed to the real Solver with the documented flags, real CBC and -bf; every run is a trace validated by Trace_Pipe.tla which re-reads the bytes with the specification, takes the MPSolver actions and judges loading, status, validity, stability, optimum values, statistics and all brute-force lines.',
    tech='trace validation (Trace_Pipe.tla) of real generator->solver runs with real CBC'),
